@@ -578,7 +578,7 @@ def explain_views(obs):
 
 # ------------------------------------------------------------------ Coq side of the tie
 HEADER = """From Coq Require Import ZArith QArith List Bool.
-From PL.C23 Require Import ModelPartial ModelKBest.
+From PL.C23 Require Import ModelPartial ModelKBest ModelAD.
 Import ListNotations.
 Open Scope Z_scope.
 Definition zl_eqb := list_eqb Z.eqb.
@@ -702,6 +702,17 @@ def coq_cases(obs, max_steps=40):
                   % (dag, n, cclauses(obs["clauses"]), dag, n, dag, n, czl(watoms))))
     w = exact_weights(obs)
     wfun = "(fun v => match v with " + " ".join("| %d => (%s, %s)" % (k, cq(p), cq(q_)) for k, (p, q_) in sorted(w.items())) + " | _ => (1%Q, 1%Q) end)"
+    # (b') hypothesis `ad_wfb` of C23_evaluate_sound_with_ads / C23_explain_sum_with_ads on this real program:
+    # the constraint clauses are exactly `ad_clauses groups` (member order of a group = its pick-one clause, the
+    # only all-positive constraint clause) and the groups / weights are well-formed (members are atom nodes,
+    # negative weight 1, positive weights in [0,1] summing to 1, groups disjoint, other atoms normalised,
+    # derived nodes (1,1)).  The groups are cross-checked against the ConstraintAD objects of the formula.
+    groups = [list(c[1:]) for c in ads if all(x > 0 for x in c[1:])]
+    from_constraints = sorted(sorted(nodes + ([extra] if extra is not None else [])) for nodes, extra in obs["adgroups"])
+    if sorted(sorted(g_) for g_ in groups) != from_constraints:
+        cases.append(("ad-groups", "false"))
+    cases.append(("ad-wf" if groups else "ad-wf-no-groups", "cl_eqb (ad_clauses %s) %s && ad_wfb %s %s %s"
+                  % (czll(groups), cclauses(ads), dag, wfun, czll(groups))))
     wtd = "(fun v => match v with " + " ".join("| %d" % k for k in watoms) + " => true | _ => false end)" if watoms else "(fun _ => false)"
     stab0 = soft_table(obs)
     rec = obs["modes"].get("default")
@@ -826,8 +837,9 @@ def run(ctx):
         "'unsatisfiable' means no model); the harness checks the first half on every call and the second by DPLL on small instances",
         "hand-written Gallina models correspond to cnf_formula.py/kbest.py only as far as the sampled programs show",
         "Python floats (log-space products) vs exact rationals: compared with 1e-9 absolute slack",
-        "the weight lemma (product of a cube's weights = its weighted model count) is proved for LogicDAG completions without "
-        "annotated-disjunction constraints; with ADs it is an explicit hypothesis of the bound theorems (tie covers ADs)",
+        "annotated disjunctions: the bound theorems with ADs (C23_evaluate_sound_with_ads, C23_explain_sum_with_ads) assume the "
+        "boolean well-formedness `ad_wfb` of groups and weights; the tie evaluates it on every real program (case ad-wf), together "
+        "with `ad_clauses groups` = the real constraint clauses",
     ]
     ctx.prove("C23/Props.v")
     ctx.log("proofs checked")
